@@ -211,6 +211,15 @@ def discharge(ob, timeout_ms=10000, use_cvc5=True):
     # first on the cone of influence of the goal (sound: fewer hypotheses); a `sat`/`unknown` there is re-asked on the full
     # path condition, so that counter-models always satisfy every assumption
     coi = cone_of_influence(list(ob.pc), g)
+    if not has_quant(g) and any(has_quant(a) for a in coi):
+        # cheapest attempt first: the quantifier-free part of the cone (sound: fewer hypotheses).  Element-wise goals at a fresh index
+        # usually follow from the definitions inlined at that index and need none of the quantified facts
+        qf_only = [a for a in coi if not has_quant(a)]
+        v0, _, be0, secs0 = check_sat(qf_only + [z3.Not(g)], min(timeout_ms, 4000), use_cvc5=False)
+        if v0 == "unsat":
+            ob.verdict, ob.model, ob.backend, ob.secs = "unsat", None, be0 + "(qf-cone)", secs0
+            ob.zmodel = None
+            return ob
     v, m, be, secs = check_sat(coi + [z3.Not(g)], timeout_ms, use_cvc5=False)
     if v == "sat" and len(coi) < len(ob.pc):
         # The cone is closed under shared symbols, so the remaining assumptions are symbol-disjoint from cone and goal: the cone's
